@@ -160,6 +160,8 @@ func main() {
 	seed := flag.Uint64("seed", 1, "seed")
 	replay := flag.String("replay", "", "file of case lines to re-execute instead of generating")
 	wd := flag.Int("watchdog", 10, "per-case watchdog in seconds")
+	flag.IntVar(&shardIdx, "shard", 0, "index of this shard (exhaustive enumerations are partitioned)")
+	flag.IntVar(&shardN, "nshards", 1, "number of shards")
 	flag.Parse()
 	watchdogLimit = time.Duration(*wd) * time.Second
 	startWatchdog()
@@ -195,6 +197,15 @@ func main() {
 }
 
 var streams = map[string]func(r *rng, n int){}
+
+// exhaustive enumerations are partitioned over the shards of a run
+var shardIdx, shardN = 0, 1
+var enumCounter int
+
+func mine() bool {
+	enumCounter++
+	return shardN <= 1 || enumCounter%shardN == shardIdx
+}
 
 func replayLine(line string) {
 	f := strings.Fields(line)
